@@ -8,7 +8,8 @@
 //! under a watchdog so that a hang (cycle not rejected) or an abort is attributed to one history.
 //!
 //! Output files in --out:
-//!   model_in.txt       `spec|<history>` one per line (model: add_module always starts a revision)
+//!   model_in.txt       `spec|<history>` one per line (model: a first definition starts a revision iff the
+//!                      module was requested before; checks/c15.py also runs the `always` policy)
 //!   model_in_asis.txt  `asis|<history>` (model of add_module as it stands: Vacant entry, no revision)
 //!   impl_out.txt       one line per history: `e<m> L=<res>/<ran> F=<res>/<ran> | ...`
 //!   cases.txt          the histories (`set 1 I 10 2,3|eval 1|...`)
@@ -803,7 +804,12 @@ fn main() {
         return;
     }
     if let Some(text) = args.extra.get("history") {
-        // ad-hoc: c15 "history=set 1 I 1|eval 1"
+        // ad-hoc: c15 "history=set 1 I 1|eval 1" [json=1]
+        if args.extra.contains_key("json") {
+            let r = run_history(&parse_history(text), false);
+            println!("{}", serde_json::json!({"line": r.line, "violations": r.violations}));
+            return;
+        }
         let r = run_history(&parse_history(text), true);
         println!("impl: {}", r.line);
         println!("violations: {}", serde_json::to_string_pretty(&r.violations).unwrap());
